@@ -510,6 +510,9 @@ func (c *Ctx) step(st *State) {
 	}
 	ins := f.block.Instrs[f.ip]
 	st.steps++
+	if c.cfg.Verbose && st.steps%2000000 == 0 {
+		fmt.Printf("  steps=%dM depth=%d in %s\n", st.steps/1000000, len(st.frames), f.fn.String())
+	}
 	if c.cfg.Verbose && false {
 		fmt.Printf("  [%d] %s: %s\n", len(st.frames), f.fn.Name(), ins)
 	}
@@ -620,7 +623,13 @@ func (c *Ctx) step(st *State) {
 			c.runtimePanic(st, "invalid memory address or nil pointer dereference")
 			return
 		}
-		c.store(st, p, c.get(st, f, x.Val))
+		val := c.get(st, f, x.Val)
+		if c.cfg.ConcStores && len(p.Path) > 0 {
+			if t, ok := val.(*Term); ok && t.W >= 8 && !t.IsConst() {
+				val = c.tryConst(st, t)
+			}
+		}
+		c.store(st, p, val)
 		f.ip++
 	case *ssa.Extract:
 		t := c.get(st, f, x.Tuple).(TupleV)
@@ -1345,7 +1354,7 @@ func (c *Ctx) fewValues(st *State, t *Term, max int) []uint64 {
 	}
 	var vals []uint64
 	extra := c.tb.True
-	probe := c.tb.Var("__conc", t.W)
+	probe := c.tb.Var(fmt.Sprintf("__conc%d", t.W), t.W)
 	sl := c.slice(st, t)
 	for len(vals) <= max {
 		ts := append(append([]*Term{}, sl...), extra, c.tb.Eq(probe, t))
@@ -1356,7 +1365,7 @@ func (c *Ctx) fewValues(st *State, t *Term, max int) []uint64 {
 		if r == Unknown || m == nil {
 			break
 		}
-		v := m.Vars["__conc"]
+		v := m.Vars[fmt.Sprintf("__conc%d", t.W)]
 		vals = append(vals, v)
 		extra = c.tb.And(extra, c.tb.Ne(t, c.tb.Const(t.W, v)))
 	}
@@ -1379,48 +1388,44 @@ func (c *Ctx) tryConst(st *State, t *Term) *Term {
 	if st.pcUnsure {
 		return t
 	}
-	if st.noConst != nil && st.noConst[t.ID] == len(st.pc) {
-		return t
-	}
-	if st.model == nil {
-		ok, m, unk := c.feasible(st, c.tb.True)
-		_ = ok
-		if m == nil || unk {
-			// obtain a model of the slice relevant to t
-			sl := c.slice(st, t)
-			r, mm := c.solve(append(append([]*Term{}, sl...), c.tb.Eq(t, t)), c.cfg.FeasTimeoutMs)
-			if r != Sat || mm == nil {
-				return t
-			}
-			m = mm
+	if st.noConst != nil {
+		if n, ok := st.noConst[t.ID]; ok && n == len(st.pc) {
+			return t
 		}
-		_ = m
+	}
+	fail := func() *Term {
+		if st.noConst == nil {
+			st.noConst = map[int]int{}
+		}
+		st.noConst[t.ID] = len(st.pc)
+		return t
 	}
 	var v uint64
 	if st.model != nil {
 		v = c.tb.Eval(t, st.model, map[int]uint64{})
 	} else {
 		sl := c.slice(st, t)
-		probe := c.tb.Var("__probe", t.W)
-		r, mm := c.solve(append(append([]*Term{}, sl...), c.tb.Eq(probe, t)), c.cfg.FeasTimeoutMs)
+		probe := c.tb.Var(fmt.Sprintf("__probe%d", t.W), t.W)
+		r, mm := c.solve(append(append([]*Term{}, sl...), c.tb.Eq(probe, t)), 2000)
 		if r != Sat || mm == nil {
-			return t
+			return fail()
 		}
-		v = mm.Vars["__probe"]
+		v = mm.Vars[fmt.Sprintf("__probe%d", t.W)]
 	}
 	k := c.tb.Const(t.W, v)
 	ne := c.tb.Ne(t, k)
+	if ne.IsFalse() {
+		return k
+	}
 	sl := c.slice(st, ne)
-	r, _ := c.solve(append(append([]*Term{}, sl...), ne), 1000)
+	r, m := c.solve(append(append([]*Term{}, sl...), ne), 2000)
 	if r == Unsat {
+		st.addPC(c, c.tb.Eq(t, k)) // implied by pc: harmless, and lets later simplifications see it
 		st.setSubst(t, k)
 		return k
 	}
-	if st.noConst == nil {
-		st.noConst = map[int]int{}
-	}
-	st.noConst[t.ID] = len(st.pc)
-	return t
+	_ = m
+	return fail()
 }
 
 func (c *Ctx) subst(st *State, t *Term) *Term {
@@ -1454,14 +1459,14 @@ func (c *Ctx) concretize(st *State, t *Term, max int) []uint64 {
 		// make sure t itself is in the query
 		probe := c.tb.Eq(t, t)
 		_ = probe
-		r, m := c.solve(append(ts, c.tb.Eq(c.tb.Var("__conc", t.W), t)), c.cfg.FeasTimeoutMs)
+		r, m := c.solve(append(ts, c.tb.Eq(c.tb.Var(fmt.Sprintf("__conc%d", t.W), t.W), t)), c.cfg.FeasTimeoutMs)
 		if r == Unsat {
 			return vals
 		}
 		if r == Unknown || m == nil {
 			unsup("cannot concretize %s (solver unknown)", c.tb.Show(t))
 		}
-		v := m.Vars["__conc"]
+		v := m.Vars[fmt.Sprintf("__conc%d", t.W)]
 		vals = append(vals, v)
 		extra = c.tb.And(extra, c.tb.Ne(t, c.tb.Const(t.W, v)))
 	}
@@ -2165,6 +2170,9 @@ func (c *Ctx) ensureInit(st *State, p *ssa.Package) {
 	initFn := p.Func("init")
 	if initFn == nil || initFn.Blocks == nil {
 		return
+	}
+	if c.cfg.Verbose {
+		fmt.Printf("  init %s ...\n", p.Pkg.Path())
 	}
 	depth := len(st.frames)
 	// run init with result discarded; the current instruction of the caller will be re-executed afterwards
